@@ -32,7 +32,13 @@ fn list(v: Option<&str>) -> Option<BTreeSet<String>> {
     v.map(|s| s.split(',').map(|x| x.trim().to_string()).filter(|x| !x.is_empty()).collect())
 }
 
-struct Req { method: &'static str, path: String, acrm: Option<&'static str>, acrh: Option<&'static str> }
+struct Req { method: &'static str, path: String, acrm: Option<&'static str>, acrh: Option<&'static str>,
+    /// spelling of the request's CORS header names: 0 canonical, 1 lower case, 2 upper case, 3 only the first letter upper (field names are case-insensitive)
+    spelling: u8 }
+
+fn spell(name: &str, k: u8) -> String {
+    match k { 1 => name.to_ascii_lowercase(), 2 => name.to_ascii_uppercase(), 3 => { let l = name.to_ascii_lowercase(); l[..1].to_ascii_uppercase() + &l[1..] } _ => name.to_string() }
+}
 
 fn requests(set: &[RouteSpec]) -> Vec<Req> {
     let mut paths: Vec<String> = vec!["/".into(), "/zz".into()];
@@ -43,13 +49,16 @@ fn requests(set: &[RouteSpec]) -> Vec<Req> {
     }
     let mut out = vec![];
     for p in &paths {
-        for m in ["GET", "PUT", "POST", "PATCH", "DELETE", "HEAD", "OPTIONS"] { out.push(Req { method: m, path: p.clone(), acrm: None, acrh: None }) }
+        for m in ["GET", "PUT", "POST", "PATCH", "DELETE", "HEAD", "OPTIONS"] { out.push(Req { method: m, path: p.clone(), acrm: None, acrh: None, spelling: 0 }) }
         // requested methods: the seven real ones, an unknown token, and near-misses of real ones (strict prefix / suffix, other
         // case, two names joined as the advertised list joins them, the bare separator) - none of the latter is a registered method
         for acrm in ["GET", "PUT", "POST", "PATCH", "DELETE", "HEAD", "OPTIONS", "FOO", "GE", "OST", "get", "GET, POST", "PUT, DELETE", ", ", "TIONS"] { for acrh in [None, Some("X-Req, X-Other")] {
             if acrh.is_some() && acrm.len() != 3 && !["POST", "OPTIONS"].contains(&acrm) { continue }
-            out.push(Req { method: "OPTIONS", path: p.clone(), acrm: Some(acrm), acrh })
+            out.push(Req { method: "OPTIONS", path: p.clone(), acrm: Some(acrm), acrh, spelling: 0 });
+            // the same preflight with its header names in other spellings (real requested methods only)
+            if acrh.is_some() && ["GET", "PUT", "POST"].contains(&acrm) { for k in 1..=3u8 { out.push(Req { method: "OPTIONS", path: p.clone(), acrm: Some(acrm), acrh, spelling: k }) } }
         } }
+        out.push(Req { method: "GET", path: p.clone(), acrm: None, acrh: None, spelling: 1 });
     }
     out
 }
@@ -71,11 +80,9 @@ fn shape_kind(shape: &str) -> &'static str {
     if shape == "flat" { "flat" } else if shape == "split" { "split" } else if shape == "split-mount" { "split-mount" } else if shape == "inline" { "inline" } else { "mounted" }
 }
 
-fn check_response(ctx: &mut Ctx, policy: &CorsDesc, set: &[RouteSpec], shape: &str, desc: &AppDesc, r: &Req, p: &ParsedResponse) {
-    let kind = shape_kind(shape);
-    let reqkind = if r.acrm.is_some() { "preflight" } else if r.method == "OPTIONS" { "options" } else { "simple" };
+/// what the policy owes on *every* response, whoever produced it
+fn every_response_problems(policy: &CorsDesc, p: &ParsedResponse) -> Vec<String> {
     let mut problems: Vec<String> = vec![];
-    // --- every response ---
     if p.header_all("Access-Control-Allow-Origin") != vec![policy.origin.as_str()] { problems.push("allow-origin".into()) }
     let want_cred = policy.credentials && policy.origin != "*";
     let cred = p.header_all("Access-Control-Allow-Credentials");
@@ -84,6 +91,65 @@ fn check_response(ctx: &mut Ctx, policy: &CorsDesc, set: &[RouteSpec], shape: &s
     let want_expose: BTreeSet<String> = policy.expose_headers.iter().cloned().collect();
     let got_expose = list(p.header("Access-Control-Expose-Headers")).unwrap_or_default();
     if want_expose != got_expose { problems.push("expose-headers".into()) }
+    problems
+}
+
+/* ---- responses produced by other fangs inside the CORS fang (fourth round) ----
+   The policy is owed on every response of the application that carries the fang - also on the refusal of a guard that
+   belongs to a mounted application, also when the route under that mount comes from somewhere else (declared on the root
+   under the mount's prefix, or by a third application mounted below it): such nodes take over the fangs in effect at the
+   mount point, and where those end up relative to the root's CORS fang decides whether the refusal carries the headers. */
+
+const GUARD_TREES: [&str; 5] = ["guarded-child", "guarded-child+root-route-below", "guarded-child+third-app-below", "guarded-child+both", "guard-local-to-handler"];
+
+fn guard_tree(kind: &str, policy: &CorsDesc) -> AppDesc {
+    let m = |method: &str, hid: &str, local: Vec<FangDesc>| appgen::MethodDesc { method: method.into(), hid: hid.into(), n_params: 0, local_fangs: local };
+    let route = |path: &str, hid: &str| appgen::ItemDesc::Route { path: path.into(), methods: vec![m("GET", hid, vec![]), m("POST", hid, vec![])] };
+    let child = AppDesc { fangs: vec![FangDesc::Block("guard".into())], with_form: false, items: vec![route("/", "child-root"), route("/x", "child-x")] };
+    let third = AppDesc { fangs: vec![], with_form: false, items: vec![route("/", "third-root"), route("/y", "third-y")] };
+    let mut items = vec![route("/", "root"), route("/open", "open")];
+    match kind {
+        "guard-local-to-handler" => items.push(appgen::ItemDesc::Route { path: "/a".into(), methods: vec![m("GET", "local", vec![FangDesc::Block("guard".into())]), m("POST", "plain", vec![])] }),
+        _ => {
+            items.push(appgen::ItemDesc::Mount { prefix: "/a".into(), app: child });
+            if kind.contains("root-route-below") || kind.contains("both") { items.push(route("/a/r", "root-below")) }
+            if kind.contains("third-app-below") || kind.contains("both") { items.push(appgen::ItemDesc::Mount { prefix: "/a/t".into(), app: third }) }
+        }
+    }
+    AppDesc { fangs: vec![FangDesc::Cors(policy.clone())], with_form: false, items }
+}
+
+fn check_guard_tree(ctx: &mut Ctx, policy: &CorsDesc, kind: &'static str, only: Option<(usize, &str, &str)>) {
+    let base = guard_tree(kind, policy);
+    for (oi, d) in orders(&base, true).into_iter().enumerate() {
+        if let Some((o, _, _)) = only { if o != oi { continue } }
+        let router = match appgen::build(&d) { Ok(r) => r, Err(_) => { ctx.skip(); continue } };
+        ctx.states += 1;
+        for path in ["/", "/open", "/a", "/a/", "/a/x", "/a/zz", "/a/r", "/a/r/zz", "/a/t", "/a/t/y", "/a/t/zz", "/zz"] {
+            for method in ["GET", "POST", "PUT", "HEAD", "OPTIONS"] {
+                if let Some((_, m, p)) = only { if m != method || p != path { continue } }
+                ctx.transitions += 1;
+                let out = app::oneshot(&router, &app::request(method, path, &[("Host", "h"), ("Origin", "https://any.example")], b""));
+                let witness = |observed: Value, problems: Vec<String>| { let w = json!({"guard_tree": kind, "policy": policy, "order": oi, "app": d, "method": method, "path": path, "observed": observed, "problems": problems}); move || w };
+                match out.parsed() {
+                    None => ctx.violation(&format!("C14/inner-guard:{kind}/broken:{}", out.kind()), true, witness(json!(out.kind()), vec![])),
+                    Some(p) => {
+                        let problems = every_response_problems(policy, p);
+                        let who = if p.status == 403 { "refusal-of-inner-guard" } else if p.status == 404 { "not-found" } else { "other" };
+                        if problems.is_empty() { ctx.pass(&format!("inner-guard:{who}:{}", p.status), true, p.status == 403) }
+                        else { for pr in &problems { ctx.violation(&format!("C14/inner-guard:{kind}/{who}/{pr}"), true, witness(json!({"status": p.status, "headers": p.headers.iter().filter(|(k, _)| k.starts_with("Access-Control")).collect::<Vec<_>>()}), problems.clone())); }
+                            ctx.evaluations -= problems.len() as u64 - 1; }
+                    }
+                }
+            }
+        }
+    }
+}
+
+fn check_response(ctx: &mut Ctx, policy: &CorsDesc, set: &[RouteSpec], shape: &str, desc: &AppDesc, r: &Req, p: &ParsedResponse) {
+    let kind = shape_kind(shape);
+    let reqkind = if r.acrm.is_some() { if r.spelling == 0 { "preflight" } else { "preflight-names-in-other-case" } } else if r.method == "OPTIONS" { "options" } else { "simple" };
+    let mut problems: Vec<String> = every_response_problems(policy, p);
 
     // --- preflight ---
     let mut ambiguous = false;
@@ -136,7 +202,7 @@ fn check_response(ctx: &mut Ctx, policy: &CorsDesc, set: &[RouteSpec], shape: &s
         }
     }
     let witness = || json!({"policy": policy, "set": set.iter().map(|x| json!({"route": route_str(&x.segs), "methods": x.methods})).collect::<Vec<_>>(),
-        "shape": shape, "app": desc, "method": r.method, "path": r.path, "acrm": r.acrm, "acrh": r.acrh,
+        "shape": shape, "app": desc, "method": r.method, "path": r.path, "acrm": r.acrm, "acrh": r.acrh, "spelling": r.spelling,
         "observed_status": p.status, "observed_headers": p.headers.iter().filter(|(k, _)| k.starts_with("Access-Control") || k == "Vary").collect::<Vec<_>>(), "problems": problems});
     if !problems.is_empty() {
         for pr in &problems { ctx.violation(&format!("C14/{kind}/{reqkind}/{pr}"), true, witness); }
@@ -161,14 +227,15 @@ fn check_set(ctx: &mut Ctx, policy: &CorsDesc, set: &[RouteSpec], only_shape: Op
             let reqs: Vec<&Req> = match only { Some(r) => vec![r], None => reqs_all.iter().collect() };
             for r in reqs {
                 ctx.transitions += 1;
-                let mut headers: Vec<(&str, &str)> = vec![("Host", "h"), ("Origin", "https://any.example")];
-                if let Some(m) = r.acrm { headers.push(("Access-Control-Request-Method", m)) }
-                if let Some(h) = r.acrh { headers.push(("Access-Control-Request-Headers", h)) }
+                let (n_origin, n_acrm, n_acrh) = (spell("Origin", r.spelling), spell("Access-Control-Request-Method", r.spelling), spell("Access-Control-Request-Headers", r.spelling));
+                let mut headers: Vec<(&str, &str)> = vec![("Host", "h"), (&n_origin, "https://any.example")];
+                if let Some(m) = r.acrm { headers.push((&n_acrm, m)) }
+                if let Some(h) = r.acrh { headers.push((&n_acrh, h)) }
                 let out = app::oneshot(&router, &app::request(r.method, &r.path, &headers, b""));
                 match out.parsed() {
                     Some(p) => check_response(ctx, policy, set, &name, &d, r, p),
                     None => ctx.violation(&format!("C14/{}/broken:{}", shape_kind(&name), out.kind()), true,
-                        || json!({"policy": policy, "set": set.iter().map(|x| json!({"route": route_str(&x.segs), "methods": x.methods})).collect::<Vec<_>>(), "shape": name, "app": d, "method": r.method, "path": r.path, "acrm": r.acrm, "acrh": r.acrh, "observed": out.kind()})),
+                        || json!({"policy": policy, "set": set.iter().map(|x| json!({"route": route_str(&x.segs), "methods": x.methods})).collect::<Vec<_>>(), "shape": name, "app": d, "method": r.method, "path": r.path, "acrm": r.acrm, "acrh": r.acrh, "spelling": r.spelling, "observed": out.kind()})),
                 }
             }
             ctx.sample(|| json!({"policy": policy, "app": d, "requests": reqs_all.len()}));
@@ -193,6 +260,12 @@ pub fn run(ctx: &mut Ctx) {
             }
         }
     }
+    // responses of inner guards: every tree x every policy (quick: every 4th policy, rotating) x every registration order
+    for (ki, kind) in GUARD_TREES.iter().enumerate() { for (pi, pol) in pols.iter().enumerate() {
+        if quick && pi % 4 != ki % 4 { continue }
+        if !ctx.mine() { continue }
+        check_guard_tree(ctx, pol, kind, None);
+    } }
     // pairs with a menu of method subsets (quick: one rotating policy per set; thorough: 8 policies per set)
     let menu: Vec<Vec<&str>> = vec![vec!["GET"], vec!["POST"], vec!["GET", "POST"], vec!["PUT", "DELETE"], vec!["GET", "PUT", "POST", "PATCH", "DELETE"]];
     let mut k = 0usize;
@@ -214,17 +287,22 @@ pub fn run(ctx: &mut Ctx) {
     ctx.extra.insert("rule".into(), json!("case = (policy, route set with method subsets, declaration shape, registration order, request); non-trivial = a preflight, an OPTIONS request or a non-404 simple request; collision = a preflight to a route for which two or more methods are registered (the allowed-method list is assembled per registration and overridden on merge, so several registrations for one route are what can go wrong)"));
     ctx.extra.insert("bounds".into(), json!({"policies": pols.len(), "routes": "depth<=2 over {a,ab,b,:p}", "single-route method subsets": "all 31", "policies per single-route set": if quick { "1 (rotating through all 32)" } else { "all 32" },
         "pair method menu": menu, "policies per pair set": if quick { "1 (rotating)" } else { "8 (rotating)" }, "shapes": "as C01 (flat, split, mount1, mount2, nested, inline, mount-one), first two orders (all orders for split)",
-        "requests": "7 methods + 23 preflight variants (7 real requested methods, FOO, 7 near-misses of real ones; with/without requested headers) on every route instance, every proper prefix of it, one path below it, / and /zz"}));
+        "header_name_spellings": "preflights with requested headers for GET/PUT/POST also with all CORS request header names in lower / upper / first-letter-upper case", "inner_guard_trees": GUARD_TREES, "requests": "7 methods + 23 preflight variants (7 real requested methods, FOO, 7 near-misses of real ones; with/without requested headers) on every route instance, every proper prefix of it, one path below it, / and /zz"}));
     ctx.traces_validated = ctx.transitions;
 }
 
 pub fn replay(ctx: &mut Ctx, case: &Value) {
     app::pin_clock();
     let policy: CorsDesc = serde_json::from_value(case["policy"].clone()).expect("policy");
+    if let Some(k) = case["guard_tree"].as_str() {
+        let kind = GUARD_TREES.iter().copied().find(|g| *g == k).expect("known guard tree");
+        check_guard_tree(ctx, &policy, kind, Some((case["order"].as_u64().unwrap_or(0) as usize, case["method"].as_str().unwrap_or("GET"), case["path"].as_str().unwrap_or("/"))));
+        return
+    }
     let set: Vec<RouteSpec> = case["set"].as_array().unwrap().iter().map(|r| RouteSpec {
         segs: appgen::split_route(r["route"].as_str().unwrap()),
         methods: r["methods"].as_array().unwrap().iter().map(|m| m.as_str().unwrap().to_string()).collect() }).collect();
     fn st(s: Option<&str>) -> Option<&'static str> { s.map(|x| &*Box::leak(x.to_string().into_boxed_str())) }
-    let r = Req { method: st(case["method"].as_str()).unwrap_or("GET"), path: case["path"].as_str().unwrap_or("/").to_string(), acrm: st(case["acrm"].as_str()), acrh: st(case["acrh"].as_str()) };
+    let r = Req { method: st(case["method"].as_str()).unwrap_or("GET"), path: case["path"].as_str().unwrap_or("/").to_string(), acrm: st(case["acrm"].as_str()), acrh: st(case["acrh"].as_str()), spelling: case["spelling"].as_u64().unwrap_or(0) as u8 };
     check_set(ctx, &policy, &set, case["shape"].as_str(), Some(&r));
 }
